@@ -287,7 +287,14 @@ def carry_search(ctx, shim, r, n, pc, pt):
 def run(ctx):
     ctx.assumptions += [
         "theorems are about the Lean model of the flag setters of buffer.rs (_set_glyph_flags, _infos_find_min_cluster, "
-        "_infos_set_glyph_flags) and of propagate_flags; tied to the crate by the flags-prims correspondence stream",
+        "_infos_set_glyph_flags), of propagate_flags, and of the primitives that rename glyphs (set_cluster, delete_glyph, "
+        "merge_clusters, merge_out_clusters: which flags a renamed glyph carries); tied to the crate by the flags-prims and "
+        "flags-carry correspondence streams and, for the call sites inside the GSUB interpreter, by gsub-flags (Gsub.lean)",
+        "delete_glyphs_inplace has no theorem: its flag contract is the carry-exact oracle + flags-carry correspondence",
+        "synthetic-font streams: DIFFs in fonts that can produce a multi-glyph sequence or run a nested lookup after a deleting "
+        "one are attributed to the finding classes deleted-flag-carrier / nested-delete-drift from the recipe alone "
+        "(over-approximation: a new defect that shows only in such fonts would be reported under that class); 6 fonts in 10 "
+        "are outside both classes",
         "that every shaping step which makes two clusters interdependent calls unsafe_to_break over a span covering what it "
         "inspected (the ~40 call sites) is not proved; it is searched by the break-safety verifier through shape() "
         "(partial, as DESIGN.md §5 C03 says); OpenType and AAT fonts are separate streams",
